@@ -611,7 +611,11 @@ class BuiltinMixin:
             hook = self.spec.callbacks.get('guess_payload_class')
             if hook is not None:
                 return hook(self, pkt)
-            raise Unsupported('guess_payload_class')
+            if len(pkt.t.layers) >= 2:
+                sc = self.pkt_schema(pkt.t.layers[1])
+                ci = self.prog.cls(*sc.pyclass)
+                return Py('class', ci.qualname, ci)
+            raise Unsupported('guess_payload_class of a packet without payload layer')
         hook = self.spec.callbacks.get('pktmethod')
         if hook is not None:
             r = hook(self, pkt, name, args, kwargs)
